@@ -164,7 +164,15 @@ class H2Protocol:
                 await self.has_data.wait()
                 await self.has_data.clear()
             else:
-                await self._send_data(stream_id)
+                try:
+                    await self._send_data(stream_id)
+                except priority.MissingStreamError:
+                    # The priority tree is offering a stream it no
+                    # longer knows, nothing more can be scheduled.
+                    self.connection.close_connection(h2.errors.ErrorCodes.INTERNAL_ERROR)
+                    await self._flush()
+                    await self.send(Closed())
+                    return
 
     async def _send_data(self, stream_id: int) -> None:
         try:
@@ -187,9 +195,12 @@ class H2Protocol:
                 self.priority.remove_stream(stream_id)
         except (h2.exceptions.StreamClosedError, KeyError, h2.exceptions.ProtocolError):
             # Stream or connection has closed whilst waiting to send
-            # data, not a problem - just force close it.
-            await self.stream_buffers[stream_id].close()
-            del self.stream_buffers[stream_id]
+            # data, not a problem - just force close it. (The stream
+            # may only be known to the priority tree, e.g. a PRIORITY
+            # frame received after it closed).
+            stream_buffer = self.stream_buffers.pop(stream_id, None)
+            if stream_buffer is not None:
+                await stream_buffer.close()
             self.priority.remove_stream(stream_id)
 
     async def handle(self, event: Event) -> None:
